@@ -6,4 +6,4 @@ Extraction Language OCaml.
 Extraction "rangetask_model.ml"
   Z.of_N Lex.lex_cmp run_on_range task_ok batch_end_of locate nth_next
   gc_resolve_range gc_step wf_storeb primaries_okb check_all_secondaries collect_v committed_at resolve_all read_at batch_resolve scan
-  delete_range_task delete_range check_visibility snapshot_read.
+  delete_range_task delete_range check_visibility snapshot_read run_read.
